@@ -277,31 +277,28 @@ theorem hostFix_sane (o : Oracles) {a : Str} (hs : IdnaAnswerSane a) : HostFix o
 theorem nonempty_of_nonAscii {h : Str} (hna : isAscii h = false) : h ≠ [] := by
   rintro rfl; cases hna
 
-/-- `_encode_host` on a non-ASCII host that is no IP literal: the IDNA answer (screened when validating) -/
+/-- `_encode_host` on a non-ASCII host that is no IP literal: the IDNA answer (screened when validating) — for an
+    answer without ':' (since fix 3fbf5b4 an answer holding a ':' goes through `_encode_host` again) -/
 theorem encodeHost_idn (o : Oracles) {h a : Str} (v : Bool) (hna : isAscii h = false)
     (hd : ∃ b, looksIP o h = .ok b) (hip : parseIP (partition 37 h).1 = none)
-    (he : idnaEncode o h = .ok a) (hv : v = true → notRegName a = false) : encodeHost o h v = .ok a := by
+    (he : idnaEncode o h = .ok a) (h58 : mem 58 a = false) (hv : v = true → notRegName a = false) :
+    encodeHost o h v = .ok a := by
   obtain ⟨b, hb⟩ := hd
   have hr : ipRes h = none := by simp [ipRes, hip]
   rw [encodeHost_eq, hb]
-  simp only [bind, Except.bind, hr, ite_self, regPath, hna, Bool.false_eq_true, ↓reduceIte, he]
+  simp only [bind, Except.bind, hr, ite_self, regPath, hna, Bool.false_eq_true, ↓reduceIte, he, h58]
   cases v with
   | false => rfl
   | true => simp [hv rfl, pure, Except.pure]
 
-/-- conversely: the result for such a host IS the IDNA answer -/
+/-- conversely: the result for such a host IS the IDNA answer (when that answer holds no ':') -/
 theorem encodeHost_idn_inv (o : Oracles) {h r : Str} {v : Bool} (hna : isAscii h = false)
-    (hip : parseIP (partition 37 h).1 = none) (he : encodeHost o h v = .ok r) : idnaEncode o h = .ok r := by
+    (hip : parseIP (partition 37 h).1 = none) (hc : ∀ a, idnaEncode o h = .ok a → mem 58 a = false)
+    (he : encodeHost o h v = .ok r) : idnaEncode o h = .ok r := by
   have hreg := encodeHost_noIP o h v r hip he
-  simp only [regPath, hna, Bool.false_eq_true, ↓reduceIte] at hreg
-  cases hi : idnaEncode o h with
-  | error e => rw [hi] at hreg; cases hreg
-  | ok x =>
-    rw [hi] at hreg
-    simp only [bind, Except.bind] at hreg
-    split at hreg
-    · cases hreg
-    · cases hreg; rfl
+  obtain ⟨a, hi, ⟨_, rfl, _⟩ | ⟨h58, _⟩⟩ := regPath_idn_cases hna hreg
+  · exact hi
+  · rw [hc a hi] at h58; cases h58
 
 end Idn
 
@@ -340,7 +337,8 @@ theorem encodeUrl_idn (e : Env) (sc h a rp rf : Str) (vs : ValidScheme sc) (hi :
   have h64 : mem 64 h = false := mem_false_iff.mpr (fun hm => (hi.chars 64 hm).2.2.2.2.2.2.2.2.2 rfl)
   have h91 : mem 91 h = false := mem_false_iff.mpr (fun hm => (hi.chars 91 hm).2.2.2.2.2.2.1 rfl)
   have h91a : mem 91 a = false := mem_false_iff.mpr (sane_no hs (by decide))
-  have henc := encodeHost_idn e.o false hi.nonAscii hi.digit hi.noIP ha (fun h => by cases h)
+  have henc := encodeHost_idn e.o false hi.nonAscii hi.digit hi.noIP ha (notRegName_false_no_colon hs.regName)
+    (fun h => by cases h)
   unfold encodeUrl
   rw [splitUrl_auth e.o sc h rp rf vs (authOK_idn hi) h35 h63 hc1 hc2]
   simp only [bind, Except.bind, pure, Except.pure, hne, hnea, Bool.false_eq_true, ↓reduceIte, h58, h64, h91, h91a,
@@ -363,18 +361,24 @@ theorem C16_idn_encoded_ascii_lower (o : Oracles) (h r : Str) (v : Bool) (hna : 
     idnaEncode o h = .ok r ∧ IdnaAnswerSane r ∧ isLowerAscii r ∧ isAscii r = true ∧ lower r = r ∧
     (∀ c ∈ r, 33 ≤ c ∧ c ≠ 47 ∧ c ≠ 63 ∧ c ≠ 35 ∧ c ≠ 58 ∧ c ≠ 64 ∧ c ≠ 91 ∧ c ≠ 93) := by
   intro he
-  have hi := encodeHost_idn_inv o hna hip he
+  have hi := encodeHost_idn_inv o hna hip (fun a ha => notRegName_false_no_colon (idnaEncode_sane hs ha).regName) he
   have hsa := idnaEncode_sane hs hi
   refine ⟨hi, hsa, sane_isLowerAscii hsa, sane_ascii hsa, sane_lower hsa, fun c hc => ?_⟩
   have := sane_chars hsa c hc
   omega
 
 /-- with validation on (`build(host=…)`, `with_host`) the reg-name screen is CHECKED by the library after
-    IDNA; the only thing left to assume about the package is that the answer is not empty -/
+    IDNA; the only thing left to assume about the package is that the answer is not empty.  Since fix 3fbf5b4 there is a
+    second way to be accepted: the answer `a` holds a ':' and is an IP literal — then the result is the canonical text of
+    that literal (`ipRes a`, its zone screened), which is not reg-name text (brackets, colons). -/
 theorem C16_idn_validated_sane (o : Oracles) (h r : Str) (hna : isAscii h = false)
     (hip : parseIP (partition 37 h).1 = none) :
-    encodeHost o h true = .ok r → r ≠ [] → IdnaAnswerSane r :=
-  fun he hne => ⟨hne, (C16_idna_validated o h r hna hip he).2⟩
+    encodeHost o h true = .ok r → r ≠ [] → IdnaAnswerSane r ∨
+      ∃ a, idnaEncode o h = .ok a ∧ mem 58 a = true ∧ ipRes a = some r ∧ zoneBad a true = false := by
+  intro he hne
+  obtain ⟨a, hi, ⟨_, _, hn⟩ | ⟨h58, hr, hz⟩⟩ := C16_idna_validated o h r hna hip he
+  · exact Or.inl ⟨hne, hn⟩
+  · exact Or.inr ⟨a, hi, h58, hr, hz⟩
 
 /-- (C16, "encoding is idempotent", IDN case.)  A sane answer is a fixed point of `_encode_host`, with and
     without validation: it is ASCII, so the second pass takes the ASCII fast path (lower-casing, or the IPv4
@@ -433,30 +437,42 @@ theorem C16_idn_ctor (e : Env) (sc h rp rf : Str) (vs : ValidScheme sc) (hi : Id
   · intro a ha
     exact ⟨_, encodeUrl_idn e sc h a rp rf vs hi ha (idnaEncode_sane hs ha) h35 h63 hc1 hc2⟩
 
+/-- what validation leaves of a non-ASCII host: the IDNA answer `r`, screened (a fixed point when non-empty) — or,
+    since fix 3fbf5b4, the canonical text of the IP literal that an answer holding a ':' spells -/
+theorem C16_idn_validated_result (o : Oracles) (h r : Str) (hna : isAscii h = false)
+    (hip : parseIP (partition 37 h).1 = none) (hr : encodeHost o h true = .ok r) :
+    (idnaEncode o h = .ok r ∧ notRegName r = false ∧
+      (r ≠ [] → IdnaAnswerSane r ∧ HostFix o r ∧ ∀ v, encodeHost o r v = .ok r)) ∨
+    (∃ a, idnaEncode o h = .ok a ∧ mem 58 a = true ∧ ipRes a = some r ∧ zoneBad a true = false) := by
+  obtain ⟨a, hi, ⟨_, rfl, hn⟩ | ⟨h58, hres, hz⟩⟩ := C16_idna_validated o h r hna hip hr
+  · exact Or.inl ⟨hi, hn, fun hne => ⟨⟨hne, hn⟩, hostFix_sane o ⟨hne, hn⟩, fun v => encodeHost_sane o ⟨hne, hn⟩ v⟩⟩
+  · exact Or.inr ⟨a, hi, h58, hres, hz⟩
+
 /-- BUILD: `URL.build(host=h, …)` with a non-ASCII `h` succeeds only if the IDNA answer passes the screen;
-    if it is also non-empty it is a fixed point of `_encode_host` and satisfies `HostFix` -/
+    if it is also non-empty it is a fixed point of `_encode_host` and satisfies `HostFix`.  (Since fix 3fbf5b4: or the
+    answer holds a ':' and is an IP literal, stored in its canonical form.) -/
 theorem C16_idn_build (e : Env) (a : BuildArgs) (u : Url) (henc : a.encoded = false) (hauth : a.authority = [])
     (hna : isAscii a.host = false) (hip : parseIP (partition 37 a.host).1 = none) :
     build e a = .ok u →
-    ∃ r, encodeHost e.o a.host true = .ok r ∧ idnaEncode e.o a.host = .ok r ∧ notRegName r = false ∧
-      (r ≠ [] → IdnaAnswerSane r ∧ HostFix e.o r ∧ ∀ v, encodeHost e.o r v = .ok r) := by
+    ∃ r, encodeHost e.o a.host true = .ok r ∧
+      ((idnaEncode e.o a.host = .ok r ∧ notRegName r = false ∧
+        (r ≠ [] → IdnaAnswerSane r ∧ HostFix e.o r ∧ ∀ v, encodeHost e.o r v = .ok r)) ∨
+       (∃ x, idnaEncode e.o a.host = .ok x ∧ mem 58 x = true ∧ ipRes x = some r ∧ zoneBad x true = false)) := by
   intro hb
   obtain ⟨r, hr⟩ := C16_build_validates e a u henc hauth (nonempty_of_nonAscii hna) hb
-  have h2 := C16_idna_validated e.o a.host r hna hip hr
-  exact ⟨r, hr, h2.1, h2.2, fun hne => ⟨⟨hne, h2.2⟩, hostFix_sane e.o ⟨hne, h2.2⟩,
-    fun v => encodeHost_sane e.o ⟨hne, h2.2⟩ v⟩⟩
+  exact ⟨r, hr, C16_idn_validated_result e.o a.host r hna hip hr⟩
 
 /-- WITH_HOST: the same for `u.with_host(h)` -/
 theorem C16_idn_withHost (e : Env) (u u' : Url) (h : Str)
     (hna : isAscii h = false) (hip : parseIP (partition 37 h).1 = none) :
     withHost e u h = .ok u' →
-    ∃ r, encodeHost e.o h true = .ok r ∧ idnaEncode e.o h = .ok r ∧ notRegName r = false ∧
-      (r ≠ [] → IdnaAnswerSane r ∧ HostFix e.o r ∧ ∀ v, encodeHost e.o r v = .ok r) := by
+    ∃ r, encodeHost e.o h true = .ok r ∧
+      ((idnaEncode e.o h = .ok r ∧ notRegName r = false ∧
+        (r ≠ [] → IdnaAnswerSane r ∧ HostFix e.o r ∧ ∀ v, encodeHost e.o r v = .ok r)) ∨
+       (∃ x, idnaEncode e.o h = .ok x ∧ mem 58 x = true ∧ ipRes x = some r ∧ zoneBad x true = false)) := by
   intro hb
   obtain ⟨r, hr⟩ := C16_withHost_validates e u u' h hb
-  have h2 := C16_idna_validated e.o h r hna hip hr
-  exact ⟨r, hr, h2.1, h2.2, fun hne => ⟨⟨hne, h2.2⟩, hostFix_sane e.o ⟨hne, h2.2⟩,
-    fun v => encodeHost_sane e.o ⟨hne, h2.2⟩ v⟩⟩
+  exact ⟨r, hr, C16_idn_validated_result e.o h r hna hip hr⟩
 
 /-! ### the decoded host -/
 
